@@ -5,7 +5,8 @@ VERIF = os.path.dirname(os.path.dirname(os.path.abspath(__file__)))
 REPO = os.environ.get("VERIF_REPO", "/repo")
 LEAN = os.path.join(VERIF, "lean")
 HARNESS = os.path.join(VERIF, "harness")
-BUILD = os.path.join(VERIF, ".build")
+LOCKDIR = os.path.join(VERIF, ".build")
+BUILD = os.path.join(VERIF, ".build" + os.environ.get("VERIF_BUILD_SUFFIX", ""))
 SCRATCH = os.path.join(VERIF, ".scratch")
 KV = os.path.join(BUILD, "kv")
 KMODEL = os.path.join(LEAN, ".lake", "build", "bin", "kmodel")
@@ -37,7 +38,8 @@ def run(cmd, cwd=None, env=None, timeout=None, stdin=None, stdout=subprocess.PIP
 class Lock:
     def __init__(self, name):
         os.makedirs(BUILD, exist_ok=True)
-        self.path = os.path.join(BUILD, name)
+        os.makedirs(LOCKDIR, exist_ok=True)
+        self.path = os.path.join(LOCKDIR, name)
 
     def __enter__(self):
         self.f = open(self.path, "w")
